@@ -148,8 +148,16 @@ func cmdDump(args []string) {
 	if err != nil {
 		fmt.Fprintln(os.Stderr, err)
 	}
+	if fs.Arg(1) == "@exit" {
+		eo := &Obl{vc: vc, Prefix: vc.exitPrefix, Guard: vc.exitGuard, Goal: "true"}
+		fmt.Printf("; reachability of the normal exit of %s\n%s\n", name, eo.ReachQuery())
+		return
+	}
 	for _, o := range vc.obls {
 		if strings.Contains(o.Name, fs.Arg(1)) {
+			if os.Getenv("GOVC_GROUND") == "1" {
+				o.DropQuantified = true
+			}
 			fmt.Printf("; %s\n%s\n", o.Name, o.Query(true))
 			return
 		}
